@@ -11,6 +11,7 @@ import (
 	"strings"
 	"sync"
 	"sync/atomic"
+	"syscall"
 	"time"
 
 	kmip "github.com/ovh/kmip-go"
@@ -420,6 +421,68 @@ func realServer(c *core.Ctx, r *core.Rand, i int) {
 	c.Distinct(core.Hash64("real-server", fmt.Sprint(hist)))
 }
 
+// clones: a client and clones of it are used concurrently. A clone is a client of its own (own connection); when the
+// dial for a clone fails, Clone fails. Whatever Clone returns, every call gets the response to its own request.
+func clones(c *core.Ctx, r *core.Rand, i int) {
+	ctl := hooks.Install()
+	defer ctl.Uninstall()
+	srv := newEcho()
+	defer srv.Close()
+	var failDial atomic.Bool
+	cl, err := kmipclient.Dial("mem", kmipclient.WithDialerUnsafe(func(context.Context) (net.Conn, error) {
+		if failDial.Load() {
+			return nil, &net.OpError{Op: "dial", Net: "mem", Err: os.NewSyscallError("connect", syscall.ECONNREFUSED)}
+		}
+		return srv.L.Dial()
+	}), kmipclient.EnforceVersion(kmip.V1_4))
+	if err != nil {
+		panic("harness: dial: " + err.Error())
+	}
+	defer cl.Close()
+	users := []*kmipclient.Client{cl}
+	for k, n := 0, 1+r.Intn(3); k < n; k++ {
+		failDial.Store(r.P(1, 2)) // the network is down for half of the clone attempts
+		var c2 *kmipclient.Client
+		var cerr error
+		if p, pv, st := core.Guard(func() { c2, cerr = cl.Clone() }); p {
+			c.Violation(core.PanicSig(pv, st), fmt.Sprintf("Clone panicked: %v", pv), map[string]any{"stack": st})
+			return
+		}
+		if failDial.Load() {
+			c.Count("clones_with_failing_dial", 1)
+		}
+		failDial.Store(false)
+		if cerr == nil && c2 != nil {
+			defer c2.Close()
+			users = append(users, c2)
+		}
+	}
+	c.Count("clone_rounds", 1)
+	var hist []string
+	var mu sync.Mutex
+	var wg sync.WaitGroup
+	for u, user := range users {
+		for g := 0; g < 2; g++ {
+			wg.Add(1)
+			rr := core.NewRand(c.Seed, "c10-clones", i, u, g)
+			go func(u, g int, user *kmipclient.Client) {
+				defer wg.Done()
+				for k := 0; k < 6; k++ {
+					if rr.P(1, 2) {
+						// a pause between "request written" and "waiting for the response" (scheduling, GC)
+						d := time.Duration(rr.Intn(3)) * time.Millisecond
+						ctl.OnMine("client.roundtrip.sent", func() { time.Sleep(d) })
+					}
+					res := call(c, user, srv, ctl, fmt.Sprintf("c%d-u%d-g%d-%d", i, u, g, k), planNone)
+					verdict(c, res, &hist, &mu)
+				}
+			}(u, g, user)
+		}
+	}
+	wg.Wait()
+	c.Distinct(core.Hash64("clones", fmt.Sprint(len(users), i%5)))
+}
+
 func Spec() *core.Spec {
 	slog.SetDefault(slog.New(slog.NewTextHandler(io.Discard, nil)))
 	return &core.Spec{
@@ -429,9 +492,9 @@ func Spec() *core.Spec {
 		Rule: "every call carries a unique id that a scripted in-memory server echoes, so each returned response identifies the request it answers (no ambiguity to search over). " +
 			"Directed sequences on one client: each call under a cancellation plan {none, before send, at the hooked point after loading the tx channel, at the hooked point between send and recv with the response held back and released late, " +
 			"while the server holds the response, 2 ms deadline}, always followed by further calls; stress: 2..32 goroutines sharing one client, 6 calls each with seeded plans (race detector on). " +
-			"a plan where the server writes a server-to-client request ahead of the response; a plan where the Write that delivered the request reports an error; the client against the library server with requests above its size limit mixed in; whole responses kept by their callers and re-read after all later calls; distinct = distinct call histories (ids, plans, outcomes in completion order)",
+			"a plan where the server writes a server-to-client request ahead of the response; a plan where the Write that delivered the request reports an error; a client and its clones (some cloned while the dialer fails) used concurrently with pauses between write and wait; the client against the library server with requests above its size limit mixed in; whole responses kept by their callers and re-read after all later calls; distinct = distinct call histories (ids, plans, outcomes in completion order)",
 		Assumptions: []string{"cancellation instants are placed by the verif hooks client.send.loaded and client.roundtrip.sent, which sit where the scheduler may preempt anyway"},
-		Required:    []string{"calls", "calls_returning_response", "calls_returning_error", "cancel.before-send", "cancel.at-send-loaded", "cancel.between-send-and-recv", "cancel.while-server-holds", "hook.client.roundtrip.sent", "stress_rounds", "server_pushes", "calls.server-push-before-response", "write_errors_after_flush", "held_responses", "oversized_requests", "real_server_calls"},
+		Required:    []string{"calls", "calls_returning_response", "calls_returning_error", "cancel.before-send", "cancel.at-send-loaded", "cancel.between-send-and-recv", "cancel.while-server-holds", "hook.client.roundtrip.sent", "stress_rounds", "server_pushes", "calls.server-push-before-response", "write_errors_after_flush", "held_responses", "oversized_requests", "real_server_calls", "clone_rounds", "clones_with_failing_dial"},
 		Shards:      func(string) int { return 8 },
 		Families: []core.Family{
 			{Name: "directed", N: func(tier string) int {
@@ -440,6 +503,12 @@ func Spec() *core.Spec {
 				}
 				return 200
 			}, Run: directed, Timeout: 30 * time.Second},
+			{Name: "clones", N: func(tier string) int {
+				if tier == core.Thorough {
+					return 2000
+				}
+				return 40
+			}, Run: clones, Timeout: 60 * time.Second},
 			{Name: "real-server", N: func(tier string) int {
 				if tier == core.Thorough {
 					return 1500
